@@ -186,9 +186,9 @@ Proof.
       constructor; [apply okc_keepalive; assumption|eapply IH; eauto].
 Qed.
 
-Lemma do_peer_exchange_ok : forall d d1, all_ok d -> do_peer_exchange d = DpeOk d1 -> all_ok d1.
+Lemma do_peer_exchange_ok : forall fx d d1, all_ok d -> do_peer_exchange fx d = DpeOk d1 -> all_ok d1.
 Proof.
-  intros d d1 H E. unfold do_peer_exchange in E.
+  intros fx d d1 H E. unfold do_peer_exchange in E.
   destruct (negb (d_pex_active d) && (N.of_nat (length (d_conns d)) <? d_minp d / 2)).
   1: destruct (d_size_pex d <? Params.c20_max_size_pex).
   3: destruct (d_pex_active d && (d_minp d <=? N.of_nat (length (d_conns d)))).
